@@ -208,7 +208,11 @@ func genLoopDL(r *Rng, idx int, tier string, step func(op string) string) {
 	addPeer := func(k int, kind string) {
 		p := &scriptPeer{k: k, kind: kind}
 		peers = append(peers, p)
-		o := step(fmt.Sprintf("peer k=%d fast=%s ext=%s", k, b01(r.Chance(60)), b01(r.Chance(50))))
+		extra := ""
+		if r.Chance(8) {
+			extra = " ih=bad"
+		}
+		o := step(fmt.Sprintf("peer k=%d fast=%s ext=%s%s", k, b01(r.Chance(60)), b01(r.Chance(50)), extra))
 		if !strings.HasPrefix(o, "accepted") {
 			p.closed = true
 			return
@@ -347,4 +351,133 @@ func genLoopDL(r *Rng, idx int, tier string, step func(op string) string) {
 		absorb(peers, step("gate kind=write on=0"))
 	}
 	step("obs")
+}
+
+func init() {
+	register(&Suite{Name: "lifecycle", NewStepper: newLoopStepper, GenStep: genLifecycle})
+}
+
+// honestServe answers up to max pending requests of peer p with the true bytes.
+func honestServe(peers []*scriptPeer, p *scriptPeer, max int, step func(string) string) int {
+	n := 0
+	for n < max && len(p.pending) > 0 && !p.closed {
+		q := p.pending[0]
+		p.pending = p.pending[1:]
+		o := step(fmt.Sprintf("msg p=%d t=piece i=%d b=%d l=%d data=true", p.k, q[0], q[1], q[2]))
+		absorb(peers, o)
+		if strings.HasPrefix(o, "skipped") || strings.HasPrefix(o, "hang") || strings.HasPrefix(o, "dead") {
+			break
+		}
+		n++
+	}
+	return n
+}
+
+// genLifecycle: command sequences (start/stop/verify), gates on allocation / verification / piece writes,
+// external file mutations while stopped, partial downloads — and at the end an honest seed with which a
+// restarted torrent must converge to complete, correct files.
+func genLifecycle(r *Rng, idx int, tier string, step func(op string) string) {
+	l := genLayout(r)
+	for l.numPieces() > 5 {
+		l.pl *= 2
+	}
+	o := step(fmt.Sprintf("new pl=%d files=%s seq=0 cfg.AllowedFastSet=0 stopafter=%s", l.pl, l.filesArg(), b01(r.Chance(10))))
+	if !strings.HasPrefix(o, "ok") {
+		return
+	}
+	var peers []*scriptPeer
+	nextK := 1
+	gates := map[string]bool{}
+	status := func(o string) string { return obsKV(o)["st"] }
+	last := o
+	do := func(op string) string {
+		last = step(op)
+		absorb(peers, last)
+		if st := status(last); st == "Stopped" || st == "Stopping" || st == "Allocating" || st == "Verifying" {
+			for _, p := range peers {
+				p.pending = nil
+			}
+		}
+		return last
+	}
+	attach := func() *scriptPeer {
+		p := &scriptPeer{k: nextK, kind: "honest"}
+		nextK++
+		peers = append(peers, p)
+		o := do(fmt.Sprintf("peer k=%d fast=%s ext=0", p.k, b01(r.Chance(50))))
+		if !strings.HasPrefix(o, "accepted") {
+			p.closed = true
+			return p
+		}
+		do(fmt.Sprintf("msg p=%d t=haveall", p.k))
+		do(fmt.Sprintf("msg p=%d t=unchoke", p.k))
+		p.unchoked = true
+		return p
+	}
+	steps := r.Range(4, 14)
+	if tier == "thorough" {
+		steps = r.Range(6, 24)
+	}
+	for s := 0; s < steps; s++ {
+		if strings.HasPrefix(last, "hang") || strings.HasPrefix(last, "dead") || strings.HasPrefix(last, "panic") {
+			return
+		}
+		st := status(last)
+		roll := r.Intn(100)
+		switch {
+		case roll < 22:
+			do("start")
+		case roll < 40:
+			do("stop")
+		case roll < 50:
+			do("verify")
+		case roll < 58:
+			kind := r.Pick2("open", "read", "write")
+			on := !gates[kind]
+			gates[kind] = on
+			do(fmt.Sprintf("gate kind=%s on=%s", kind, b01(on)))
+		case roll < 72:
+			if st == "Stopped" {
+				how := r.Pick2("delete", "delete", "corrupt", "fill")
+				file := "all"
+				if r.Chance(60) {
+					file = fmt.Sprint(r.Intn(len(l.lens)))
+				}
+				do(fmt.Sprintf("mutate file=%s how=%s off=%d", file, how, r.Pick(0, 1, l.pl-1, l.pl)))
+			} else {
+				do("obs")
+			}
+		default:
+			// some download progress from an honest peer
+			var live *scriptPeer
+			for _, p := range peers {
+				if !p.closed {
+					live = p
+				}
+			}
+			if live == nil && nextK <= 8 {
+				live = attach()
+			}
+			if live != nil {
+				honestServe(peers, live, r.Range(1, 3), step)
+			}
+		}
+	}
+	// Final phase: everything released, (re)start, an honest seed answers every request.
+	for _, kind := range []string{"open", "read", "write"} {
+		if gates[kind] {
+			do(fmt.Sprintf("gate kind=%s on=0", kind))
+		}
+	}
+	do("start")
+	if status(last) == "Stopped" || status(last) == "Stopping" {
+		do("start")
+	}
+	seed := attach()
+	for i := 0; i < 4*l.numPieces()+8 && !seed.closed; i++ {
+		if honestServe(peers, seed, 64, step) == 0 {
+			break
+		}
+	}
+	step("diskcheck final=1")
 }
